@@ -51,6 +51,16 @@ def snapshot(ds, dim):
     return {'xs': xs, 'ls': ls, 'scaled': bool(ds.is_scaled()), 'rng': rng, 'factor': fac}
 
 
+def snapshot_xs(ds, dim):
+    """snapshot of a data set whose labels need not be integers (split_one_vs_others): the labels are recorded by the caller"""
+    import copy as _c
+    d2 = _c.copy(ds)
+    data = ds.get_data()
+    n = ds.get_length()
+    d2._data = (data[0], np.zeros(n, dtype=np.int64))
+    return snapshot(d2, dim)
+
+
 def make(xs, ls, dim):
     X = np.array(xs, dtype=float).reshape(len(xs), dim) if len(xs) else np.array([])
     return DS()((X, np.array(ls, dtype=np.int64)))
@@ -117,6 +127,17 @@ class Machine:
                     r[0].shuffle()
                 elif op == 'move_boundaries':
                     r[0].move_boundaries_to_front()
+                elif op == 'remove_labels':
+                    r[0].remove_labels(args['pct'])
+                elif op == 'one_vs_others':
+                    ev['parts'] = []
+                    labs = r[0].get_labels()
+                    parts = r[0].split_one_vs_others()
+                    for lab, p in zip(labs, parts):
+                        sn = snapshot_xs(p, self.dim)
+                        ls = np.asarray(p.get_data()[1], dtype=float)
+                        ev['parts'].append({'cls': int(lab), 'xs': sn['xs'], 'one': [bool(v == 1) for v in ls], 'neg': [snapq(v) for v in ls],
+                                            'scaled': sn['scaled'], 'rng': sn['rng'], 'factor': sn['factor']})
                 elif op == 'swap':
                     r[0], r[1] = r[1], r[0]
                 elif op == 'copy':
@@ -224,7 +245,8 @@ def random_trace(rng, nsteps):
     xs = [[rng.choice(vals) for _ in range(dim)] for _ in range(n)]
     if rng.random() < 0.3 and n > 2:      # ties in the extremes
         xs[1] = list(xs[0])
-    ls = [rng.choice([0, 1, -1] if rng.random() < 0.5 else [0, 1]) for _ in range(n)]
+    labset = rng.choice([[0, 1, -1], [0, 1, -1], [0, 1], [0, 1], [0, 1, 2], [0, 2], [1, 2, -1]])     # also non-consecutive class labels
+    ls = [rng.choice(labset) for _ in range(n)]
     m = Machine(xs, ls, dim)
     evs = [{'op': 'init', 'args': {}, 'raised': False, 'regs': m.snap()}]
     script = []
@@ -238,6 +260,7 @@ def random_trace(rng, nsteps):
             labs = set(int(v) for v in np.asarray(m.r[0].get_data()[1]).tolist())
             if labs <= {0, 1, -1} and labs & {0, 1}:
                 ops.append('split_labels')
+            ops += ['remove_labels', 'one_vs_others']
         op = rng.choice(ops)
         if op == 'scale_range':
             lo, hi = rng.choice([([0, 1], [1, 1]), ([0, 1], [2, 1]), ([1, 1], [3, 1]), ([-1, 1], [1, 1])])
@@ -254,6 +277,10 @@ def random_trace(rng, nsteps):
             else:
                 idx = sorted(rng.sample(range(1, n1 + 1), rng.randint(0, min(2, n1)))) if n1 else []
             args = {'idx': idx, 'bad': any(i > n1 for i in idx)}
+        elif op == 'remove_labels':
+            nlab = int(np.sum(np.asarray(m.r[0].get_data()[1]) >= 0))
+            pct = rng.choice([0.0, 0.25, 0.5, 0.75, 1.0, 1.5])
+            args = {'pct': pct, 'k': int(round((pct if 0 <= pct < 1 else 1.0) * nlab))}
         else:
             args = {}
         ev = m.apply(op, args)
